@@ -63,9 +63,9 @@ def _(h, t, n1, n2, c1, c2, site):
 
 @failing('add_network_service.second_interface_already_connected')
 def _(h, t, n1, n2, c1, c2, site):
-    i1 = h.getattr(c1, 'interface_list')[0]
-    i1b = h.getattr(c1, 'interface_list')[1]
-    i2 = h.getattr(c2, 'interface_list')[0]
+    i1 = topo.iface(h, c1, 'nic1-p1')
+    i1b = topo.iface(h, c1, 'nic1-p2')
+    i2 = topo.iface(h, c2, 'nic2-p1')
     h.call(h.getattr(t, 'add_network_service'), name='br0', nstype=ServiceType.L2Bridge, interfaces=L(h, [i2]))
     return ('pre', lambda: h.attempt(h.getattr(t, 'add_network_service'), name='br1', nstype=ServiceType.L2Bridge,
                                      interfaces=L(h, [i1, i2])))
@@ -73,8 +73,8 @@ def _(h, t, n1, n2, c1, c2, site):
 
 @failing('add_network_service.first_interface_already_connected')
 def _(h, t, n1, n2, c1, c2, site):
-    i1 = h.getattr(c1, 'interface_list')[0]
-    i2 = h.getattr(c2, 'interface_list')[0]
+    i1 = topo.iface(h, c1, 'nic1-p1')
+    i2 = topo.iface(h, c2, 'nic2-p1')
     h.call(h.getattr(t, 'add_network_service'), name='br0', nstype=ServiceType.L2Bridge, interfaces=L(h, [i1]))
     return ('pre', lambda: h.attempt(h.getattr(t, 'add_network_service'), name='br1', nstype=ServiceType.L2Bridge,
                                      interfaces=L(h, [i1, i2])))
@@ -82,15 +82,15 @@ def _(h, t, n1, n2, c1, c2, site):
 
 @failing('add_network_service.l2ptp_second_interface_shared_port')
 def _(h, t, n1, n2, c1, c2, site):
-    i1 = h.getattr(c1, 'interface_list')[0]
-    i2 = h.getattr(c2, 'interface_list')[0]
+    i1 = topo.iface(h, c1, 'nic1-p1')
+    i2 = topo.iface(h, c2, 'nic2-p1')
     return h.attempt(h.getattr(t, 'add_network_service'), name='ptp', nstype=ServiceType.L2PTP, interfaces=L(h, [i1, i2]))
 
 
 @failing('connect_interface.already_connected')
 def _(h, t, n1, n2, c1, c2, site):
-    i1 = h.getattr(c1, 'interface_list')[0]
-    i2 = h.getattr(c2, 'interface_list')[0]
+    i1 = topo.iface(h, c1, 'nic1-p1')
+    i2 = topo.iface(h, c2, 'nic2-p1')
     h.call(h.getattr(t, 'add_network_service'), name='br0', nstype=ServiceType.L2Bridge, interfaces=L(h, [i1]))
     ns = h.call(h.getattr(t, 'add_network_service'), name='br1', nstype=ServiceType.L2Bridge, interfaces=L(h, [i2]))
     return ('pre', lambda: h.attempt(h.getattr(ns, 'connect_interface'), i1))
@@ -99,11 +99,11 @@ def _(h, t, n1, n2, c1, c2, site):
 @failing('add_link.unknown_interface')
 def _(h, t, n1, n2, c1, c2, site):
     # an interface of ANOTHER topology: its id is unknown in this model
-    i1 = h.getattr(c1, 'interface_list')[0]
+    i1 = topo.iface(h, c1, 'nic1-p1')
     t2 = h.call(ExperimentTopology)
     m = h.call(h.getattr(t2, 'add_node'), name='m1', site=site)
     cm = h.call(h.getattr(m, 'add_component'), name='nicm', model_type=CMT('SharedNIC_ConnectX_6'))
-    foreign = h.getattr(cm, 'interface_list')[0]
+    foreign = topo.pylist(h.getattr(cm, 'interface_list'))[0]
     return ('pre', lambda: h.attempt(h.getattr(t, 'add_link'), name='l1', ltype=LinkType.Patch, interfaces=L(h, [i1, foreign])))
 
 
